@@ -357,7 +357,29 @@ namespace bluetoe {
             using char_t = characteristic< Options... >;
             static constexpr bool requires_encryption = characteristic_requires_encryption< char_t, Service, Server >::value;
 
+            static details::attribute_access_result value_access( attribute_access_arguments& args, std::size_t attribute_index )
+            {
+                // the type of the attribute is known here, not by the implementation of the value
+                if ( args.type == attribute_access_type::compare_128bit_uuid )
+                    return compare_uuid( args, std::integral_constant< bool, uuid::is_128bit && !characteristic_or_service_uuid< typename Service::uuid, Options... >::auto_generated_uuid >() );
+
+                return char_t::value_type::template characteristic_value_access< Server, ClientCharacteristicIndex, requires_encryption >( args, attribute_index );
+            }
+
             static const attribute attr;
+
+        private:
+            static details::attribute_access_result compare_uuid( attribute_access_arguments& args, const std::true_type& )
+            {
+                return args.buffer_size == sizeof( uuid::bytes ) && std::equal( std::begin( uuid::bytes ), std::end( uuid::bytes ), &args.buffer[ 0 ] )
+                    ? attribute_access_result::uuid_equal
+                    : attribute_access_result::read_not_permitted;
+            }
+
+            static details::attribute_access_result compare_uuid( attribute_access_arguments&, const std::false_type& )
+            {
+                return attribute_access_result::read_not_permitted;
+            }
         };
 
         template < typename ... AttrOptions, typename CCCDIndices, std::size_t ClientCharacteristicIndex, typename Service, typename Server, typename ... Options >
@@ -365,7 +387,7 @@ namespace bluetoe {
             uuid::is_128bit
                 ? bits( details::gatt_uuids::internal_128bit_uuid )
                 : uuid::as_16bit(),
-            &characteristic< Options... >::value_type::template characteristic_value_access< Server, ClientCharacteristicIndex, requires_encryption >
+            &generate_attribute< std::tuple< characteristic_value_declaration_parameter, AttrOptions... >, CCCDIndices, ClientCharacteristicIndex, Service, Server, Options... >::value_access
         };
 
         /*
